@@ -207,6 +207,143 @@ func C15(c *core.Ctx) {
 	}
 	c.Floor("R15.2", "version-selection comparison sites", nSel, 2)
 
+	// ---- R15.4 memory store: insert, find and remove derive the child key the same way
+	{
+		keyFns := map[string]map[string]bool{}
+		for _, m := range []string{"find", "insert", "remove"} {
+			fn := c.Fn("R15.4", "std/object", "memoryStoreNode", m)
+			if fn == nil {
+				continue
+			}
+			keyFns[m] = map[string]bool{}
+			record := func(key ssa.Value) {
+				if cl, ok := core.Strip(key).(*ssa.Call); ok {
+					if id, ok := core.Callee(&cl.Call); ok {
+						keyFns[m][id.String()] = true
+						return
+					}
+				}
+				if _, isPhi := core.Strip(key).(*ssa.Phi); isPhi {
+					return
+				}
+				if _, isExt := core.Strip(key).(*ssa.Extract); isExt {
+					return // range key
+				}
+				keyFns[m]["<other>"] = true
+			}
+			core.Instrs(fn, func(in ssa.Instruction) {
+				switch x := in.(type) {
+				case *ssa.Lookup:
+					if _, ok := core.FieldOf(x.X, "children"); ok {
+						record(x.Index)
+					}
+				case *ssa.MapUpdate:
+					if _, ok := core.FieldOf(x.Map, "children"); ok {
+						record(x.Key)
+					}
+				case *ssa.Call:
+					if cl, ok := isBuiltinCall(in, "delete"); ok {
+						if _, ok := core.FieldOf(cl.Call.Args[0], "children"); ok {
+							record(cl.Call.Args[1])
+						}
+					}
+				}
+			})
+		}
+		all := map[string]bool{}
+		desc := ""
+		for m, ks := range keyFns {
+			for k := range ks {
+				all[k] = true
+			}
+			desc += fmt.Sprintf(" %s:%v", m, ks)
+		}
+		c.Decide(len(all) == 1 && len(keyFns) == 3, "R15.4", "memory-store-key-agreement", "-", "find, insert and remove all key children by the same function:"+desc, "the in-memory store's find/insert/remove derive the child key differently ("+desc+"): names whose two string forms differ are inserted under one key and removed (or looked up) under another, so removed packets are still served")
+	}
+	// ---- R15.5 Content(): the range that is returned is the range that is freed and skipped
+	if ct := c.Fn("R15.5", "std/object", "ConsumeState", "Content"); ct != nil {
+		a := ssa.Value(ct.Params[0])
+		slot := func(v ssa.Value) (int64, bool) { // v = a.wnd[k]
+			u, ok := core.StripConv(v).(*ssa.UnOp)
+			if !ok || u.Op != token.MUL {
+				return 0, false
+			}
+			ia, ok := u.X.(*ssa.IndexAddr)
+			if !ok {
+				return 0, false
+			}
+			if b, ok := ia.X.(*ssa.FieldAddr); !ok || core.Strip(b.X) != a {
+				return 0, false
+			} else if _, f := core.FieldAddrName(b); f != "wnd" {
+				return 0, false
+			}
+			return core.ConstInt(ia.Index)
+		}
+		var lo, hi int64 = -1, -1
+		uses := map[string]int64{}
+		core.Instrs(ct, func(in ssa.Instruction) {
+			switch x := in.(type) {
+			case *ssa.Slice:
+				if _, ok := core.FieldOf(x.X, "content"); ok && x.Low != nil && x.High != nil {
+					if k, ok := slot(x.Low); ok {
+						lo = k
+					}
+					if k, ok := slot(x.High); ok {
+						hi = k
+					}
+				}
+			case *ssa.BinOp:
+				if x.Op == token.LSS {
+					if k, ok := slot(x.Y); ok {
+						uses["free-loop bound"] = k
+					}
+				}
+			case *ssa.Store:
+				if ia, ok := x.Addr.(*ssa.IndexAddr); ok {
+					if b, ok := ia.X.(*ssa.FieldAddr); ok && core.Strip(b.X) == a {
+						if _, f := core.FieldAddrName(b); f == "wnd" {
+							if k, ok := slot(x.Val); ok {
+								uses["new start"] = k
+							}
+						}
+					}
+				}
+			}
+		})
+		okAgree := lo >= 0 && hi >= 0 && len(uses) == 2
+		for _, k := range uses {
+			if k != hi {
+				okAgree = false
+			}
+		}
+		c.Decide(okAgree, "R15.5", "content-range-agreement", p.Pos(ct.Pos()), fmt.Sprintf("returned range wnd[%d]:wnd[%d]; freed and skipped up to the same slot", lo, hi), fmt.Sprintf("ConsumeState.Content returns content[wnd[%d]:wnd[%d]] but frees / advances with %v: segments outside the returned range are discarded (or delivered twice)", lo, hi, uses))
+	}
+	// ---- R15.6 bolt store: one byte order for the version header on write and read
+	{
+		orders := map[string][]string{}
+		for _, fn := range p.FuncsIn(pkg) {
+			root := fn
+			for root.Parent() != nil {
+				root = root.Parent()
+			}
+			if core.FuncID(root).Recv != "BoltStore" {
+				continue
+			}
+			core.Instrs(fn, func(in ssa.Instruction) {
+				ci, ok := in.(ssa.CallInstruction)
+				if !ok {
+					return
+				}
+				id, ok := core.Callee(ci.Common())
+				if !ok || id.Pkg != "encoding/binary" {
+					return
+				}
+				orders[id.Recv] = append(orders[id.Recv], core.FuncName(fn)+"."+id.Name)
+			})
+		}
+		c.Decide(len(orders) == 1, "R15.6", "bolt-version-byte-order-agreement", "-", fmt.Sprintf("all version-header accesses of the bolt store use one byte order: %v", orders), fmt.Sprintf("the bolt store writes and reads its version header with different byte orders %v: the newest-version selection compares garbage", orders))
+	}
+
 	// ---- R15.3 segment index and allocation bounds
 	if hd := c.Fn("R15.3", "std/object", "rrSegFetcher", "handleData"); hd != nil {
 		state := ssa.Value(hd.Params[2])
